@@ -67,6 +67,26 @@ CLAIMED = {
         "namespace sets varied. Search: option vs filtered document; caps 1..max+1; capped figures against the Lean Spec.",
    note="Trusts Lean's kernel, parser. Cap theorem proved for pairwise distinct target classes (hypothesis unused by the proof but kept).",
    technique="Lean 4 proof (fold invariant with pigeonhole for the early stop) + metamorphic search + Lean Spec oracle", design="5/C16"),
+ "C03": dict(
+   text="Proof (all graphs): a constraint that stays unrelaxed stands at 100 %, and by the end-to-end exactness theorem its figure is the "
+        "declarative count, so every instance has exactly k / at least one value of that type; relaxed constraints are '*' (always respected) "
+        "or '?', and '?' arises only from cardinality exactly 1 with allow_opt_cardinality; with the mode off no cardinality is rewritten. The "
+        "ShEx semantics of the emitted fragment is a Lean definition (Spec/ShExSem.lean); the full conformance statement on the strict domain "
+        "is stated and validated, not proved; its failure outside the domain is kernel-checked on three witnesses (one per root cause). Tie: "
+        "ordered correspondence on the schema-consistent generator x switches x {direct, inverse}. Search: the Lean validator and an independent "
+        "Python validator (cross-checked against each other) run on the implementation's own output for every (instance, shape) pair.",
+   note="Trusts Lean's kernel, extract.py, parser. Value-matching half of conformance (homogeneity through the node-kind merge) and soundness of "
+        "'?' are validated only. Findings F-C03-1..4, F-C01-1 outside the strict domain.",
+   technique="Lean 4 proof of the cardinality half via C01b + executable ShEx semantics as oracle", design="5/C03"),
+ "C09": dict(
+   text="Proof: the declarative counts and class sizes are invariant under permutation of the document; hence (R1) every entry of the class "
+        "profile and every class count - the source of every printed figure - is identical for a document and any permutation of it; the "
+        "selected nodes are the same set. Tie: ordered correspondence on original, permuted and relabelled documents. Search: two fresh "
+        "implementation runs per variant: shapes, instance counts, keys and every individual figure must agree always; the set of printed facts "
+        "and the chosen constraints whenever no alternatives tie.",
+   note="Trusts Lean's kernel, parser. Blank-node relabelling and the tie-free equality of choices are validated, not proved. Finding F-C09-1 "
+        "(ties decided by dictionary order).",
+   technique="Lean 4 proof (permutation invariance of counts + R1) + metamorphic search", design="5/C09"),
 }
 PENDING_REASON = "check not built yet (work in progress; see DESIGN.md section 9 for the build order)"
 
